@@ -6,6 +6,7 @@ import (
 	"os"
 	"path/filepath"
 	"sort"
+	"strings"
 	"sync"
 	"sync/atomic"
 	"testing"
@@ -847,6 +848,10 @@ func TestC10(t *testing.T) {
 			"distinct = distinct (square, height, request, candidate operator) tuples pushed through prefix.Sum (the boxo acceptance predicate); "+
 			"non-trivial = candidate derived from valid blocks of the same or a twin square (not random bytes)")
 	defer run.Finish()
+	// a block delivery that blocks forever inside the acceptance path (the scripted exchange calls it
+	// synchronously, like boxo's message decoder) is decided by the stable-state oracle
+	defer run.WatchDeadlock("C10 block deliveries never return (stable state: blocked on a lock of the acceptance path): ",
+		func(f string) bool { return strings.Contains(f, "bitswap.") })()
 	ctx := context.Background()
 	dir := filepath.Join(t.TempDir(), "store")
 	if err := os.MkdirAll(dir, 0o755); err != nil {
